@@ -344,6 +344,10 @@ func (r *consRunner) Step(line string) string {
 			return "na"
 		}
 		v := in.index.GetMergedHighestBefore(a.ID())
+		if ps := a.Parents(); len(ps) > 0 {
+			// a caller may hold one merged clock while asking for another one
+			_ = in.index.GetMergedHighestBefore(ps[len(ps)-1])
+		}
 		av := (&adapters.VectorToDagIndexer{Index: in.index}).GetMergedHighestBefore(a.ID())
 		n := int(in.store.GetValidators().Len())
 		parts := make([]string, n)
